@@ -74,29 +74,63 @@ def run(ctx):
         ctx.check(fields.get("use_cache") == "bool" and "source_dir" in fields and "rust" in fields, P, "config-fields", "Config has use_cache: bool, source_dir, rust (%s)" % sorted(fields), "")
     # ---- R2 ----------------------------------------------------------------------------------
     P = "C16-R2"
+    from ..interproc import callers_index
     lockfns = {}
     for b in facts.non_test_bodies():
         prov = None
         for c in b.calls:
-            if c.matches(r"^std::fs::|^std::path::Path::(exists|is_file|metadata|try_exists)$|^async_std::fs::|^std::fs::File::|OpenOptions"):
+            if c.matches(r"^std::fs::|^std::path::Path::(exists|is_file|metadata|try_exists)$|^async_std::fs::|^std::fs::File::|OpenOptions|^tempfile::"):
                 prov = prov or Prov(b)
-                if c.args and edit.has_const_str(prov, c.args[0], edit.LOCK_CONST):
+                if any(edit.has_const_str(prov, a_, edit.LOCK_CONST) for a_ in c.args[:2]):
                     lockfns.setdefault(b.id, []).append(c)
-    ctx.check(len(lockfns) == 2, P, "lock-functions", "exactly two functions access the lock path: reader and writer (%s)" % sorted(x.split("::")[-1] for x in lockfns), "")
+    ctx.check(len(lockfns) >= 2, P, "lock-functions", "functions that access the lock path: %s" % sorted(x.split("::")[-1] for x in lockfns), "")
+    idx = callers_index(facts)
+
+    def guarded_site(b, bb, depth=0):
+        """is block bb of body b only executed when use_cache is true? (own guard, or every caller's
+        call site is guarded)"""
+        sws = field_switches(b, ("use_cache",))
+        dom = cfg.dominators(b)
+        for (sb, tt, ft, place) in sws:
+            if tt in dom.get(bb, ()) and sb in dom.get(bb, ()):
+                return True
+        if depth >= 2:
+            return False
+        owner = b
+        while owner is not None and owner.kind not in ("Fn", "AssocFn"):
+            owner = facts.body(owner.parent) if owner.parent else None
+        sites = idx.get(owner.id, []) if owner is not None else []
+        return bool(sites) and all(guarded_site(cb, c.bb, depth + 1) for (cb, c) in sites)
+
     for bid, calls in sorted(lockfns.items()):
         b = facts.body(bid)
+        for c in calls:
+            ctx.check(guarded_site(b, c.bb), P, "unguarded|%s|%s" % (bid, c.name.split("::")[-1]),
+                      "%s: `%s` on the lock path happens only when use_cache is true" % (bid.split("::")[-1], c.name.split("::")[-1]), c.where())
+    # the lock is (re)written as a whole: an API that truncates, or a rename of a sibling temp file
+    from .. import fsapi
+    for bid, calls in sorted(lockfns.items()):
+        for c in calls:
+            if fsapi.classify(c.name) != "mutating" and not c.matches(r"OpenOptions|^tempfile::"):
+                continue
+            whole = c.matches(r"^std::fs::write$|^std::fs::File::create$|^std::fs::rename$")
+            if c.matches(r"OpenOptions::open$"):
+                b_ = facts.body(bid)
+                chain, root = call_chain(b_, c.args[0])
+                whole = any(x.matches(r"OpenOptions::(truncate|create_new)$") and (op_const(x.args[1]) or {}).get("int") == 1 for x in chain)
+            ctx.check(whole, P, "lock-write-api|%s|%s" % (bid, c.name.split("::")[-1]),
+                      "the lock file is rewritten as a whole (truncating write or rename of a sibling file), found `%s`" % c.name, c.where())
+    for pat, what in ((r"Context::read_cached_next_reference_id$", "reader"), (r"Context::cache_next_reference_id$", "writer")):
+        b = facts.one(pat)
+        if not ctx.check(b is not None, P, "anchor|" + what, "lock %s found" % what, ""):
+            continue
         sws = field_switches(b, ("use_cache",))
-        if not ctx.check(len(sws) == 1, P, "guard|" + bid, "%s tests use_cache" % bid.split("::")[-1], b.where()):
+        if not ctx.check(len(sws) == 1, P, "guard|" + b.id, "%s tests use_cache" % b.id.split("::")[-1], b.where()):
             continue
         bb, tt, ft, place = sws[0]
-        dom = cfg.dominators(b)
-        for c in calls:
-            ctx.check(tt in dom.get(c.bb, ()) and bb in dom.get(c.bb, ()), P, "unguarded|%s|%s" % (bid, c.name.split("::")[-1]),
-                      "%s: `%s` on the lock path happens only when use_cache is true" % (bid.split("::")[-1], c.name.split("::")[-1]), c.where())
-        # the false arm does nothing but return
         region = cfg.reach(b, [ft], avoid=[tt])
-        fs = [c for c in b.calls if c.bb in region and c.matches(r"^std::fs::|^std::path::Path::exists$")]
-        ctx.check(not fs, P, "off-arm|" + bid, "%s: with use_cache false nothing touches the filesystem" % bid.split("::")[-1], b.where(bb))
+        fs = [c for c in b.calls if c.bb in region and (c.matches(r"^std::fs::|^std::path::Path::exists$") or c.name in lockfns)]
+        ctx.check(not fs, P, "off-arm|" + b.id, "%s: with use_cache false nothing touches the filesystem" % b.id.split("::")[-1], b.where(bb))
     # ---- R3 ----------------------------------------------------------------------------------
     from . import c02, c01
     c02.rule_lock_read(ctx, facts, prefix="C16-R3/C02")
